@@ -337,6 +337,9 @@ def run(S):
     rule_nsw(S, la)
     rule_rdr(S, la)
     rule_wait(S, la)
+    # the cursor's stale-root handling must not retry without progress on an emptied tree (shared with C10)
+    from checks.C10 import rule_end0
+    rule_end0(S)
     # the lock word itself: a stale or non-atomic update of the version word can re-set the lock bit after the
     # owner released it (shared with C17)
     from checks.C17 import rule_casl, rule_mx
